@@ -1,4 +1,5 @@
 import Dnp3.Gen.Link
+import Dnp3.Gen.CrcTable
 import Dnp3.Model.LinkReader
 /-!
 # C06 — Only intact link frames are delivered, and every frame sent is recovered
